@@ -2213,6 +2213,7 @@ ure_exec(ure_dfa_t dfa, int flags, ucs2_t *text, unsigned long textlen,
 #endif
 {
   int i, j, matched, found, skip;
+  unsigned int bol_count;
   unsigned long ms, me, acc_me;
   ucs4_t c;
   ucs2_t *sp, *ep, *lp;
@@ -2235,6 +2236,7 @@ ure_exec(ure_dfa_t dfa, int flags, ucs2_t *text, unsigned long textlen,
   ep = sp + textlen;
 
   ms = me = acc_me = ~0;
+  bol_count = 0;
 
   stp = dfa->states;
 
@@ -2281,6 +2283,13 @@ ure_exec(ure_dfa_t dfa, int flags, ucs2_t *text, unsigned long textlen,
 	if (flags & URE_NOTBOL)
 	  break;
 	if (lp == text) {
+	  /*
+	   * zvbi: this transition consumes no text.  After as many of
+	   * them as the DFA has states we are in a cycle ("^*"), which
+	   * must not be followed for ever.
+	   */
+	  if (bol_count++ >= dfa->nstates)
+	    break;
 	  sp = lp;
 	  matched = 1;
 	} else if (_ure_isbrk(c)) {
